@@ -24,6 +24,7 @@ RULE = (
     "text through add_file; doubled backslashes in strings, cells and blocks; hash-led and '#!' block lines; "
     'capitalised look-alikes of none / true. Rounds 7-8: none with a unit; the empty string; files that begin '
     'with a blank line; quote characters in trailing comments (strategy quoted_comment; known finding C13-K1). '
+    'Round 9: triple quotes inside comments; blank lines and lines of blanks between the rows of a table. '
     'Distinct = distinct rendered text.'
 )
 ASSUMPTIONS = [
